@@ -488,6 +488,9 @@ func (fr *Frame) assignLocs(assigns []Clause, scope map[string]*Val, old *State)
 				if n.Args[2] != nil {
 					hi = env.intOf(env.eval(n.Args[2]))
 				}
+				if x.L[1] == "0" {
+					return // nothing can be written through an empty slice
+				}
 				lo = ite(lt(lo, "0"), "0", lo)
 				hi = ite(gt(hi, x.L[1]), x.L[1], hi)
 				et := elemOf(x.T)
@@ -535,6 +538,7 @@ func (fr *Frame) havocAssigns(assigns []Clause, scope map[string]*Val, old *Stat
 		var addr string
 		var t types.Type
 		var rng *Val
+		skipEmpty := false
 		ok := func() (ok bool) {
 			defer func() {
 				if r := recover(); r != nil {
@@ -556,6 +560,10 @@ func (fr *Frame) havocAssigns(assigns []Clause, scope map[string]*Val, old *Stat
 			if n.Kind == "slice" {
 				// x[lo:hi], clipped to the slice: nothing outside x is named
 				x := env.eval(n.Args[0])
+				if x.L[1] == "0" {
+					skipEmpty = true
+					return true // nothing can be written through an empty slice
+				}
 				lo, hi := "0", x.L[1]
 				if n.Args[1] != nil {
 					lo = env.intOf(env.eval(n.Args[1]))
@@ -573,7 +581,7 @@ func (fr *Frame) havocAssigns(assigns []Clause, scope map[string]*Val, old *Stat
 			addr, t = env.addrOf(n)
 			return true
 		}()
-		if !ok {
+		if !ok || skipEmpty {
 			continue
 		}
 		if rng != nil {
@@ -591,7 +599,7 @@ func (fr *Frame) havocAssigns(assigns []Clause, scope map[string]*Val, old *Stat
 				vc.logStore(l.Key, lo, sub(hi, lo))
 				nw := vc.fresh(l.Key, "(Array Int "+l.Sort+")")
 				lo2, hi2 := lo, hi
-				vc.addAxiom(l.Key, fmt.Sprintf("(forall ((a Int)) (! (=> (not (and (<= %s a) (< a %s))) (= (select %s a) (select %s a))) :pattern ((select %s a))))",
+				vc.addAxiomArr(l.Key, nw, oldArr, fmt.Sprintf("(forall ((a Int)) (! (=> (not (and (<= %s a) (< a %s))) (= (select %s a) (select %s a))) :pattern ((select %s a))))",
 					lo, hi, nw, oldArr, nw), func(idx string) (string, []string) {
 					return imp(not(and(le(lo2, idx), lt(idx, hi2))), eq(sel(nw, idx), sel(oldArr, idx))), nil
 				})
